@@ -340,3 +340,4 @@ def run(chk, repo):
         chk.ob("R26.2", M, f"{nm} is a {kind}", v is not None and dotted(
             getattr(v, "func", None)) == kind, v or mc.node,
             "process data / parameters of the device")
+EXPLANATION += (' Added after wave 9: (R26.2) the terminal variables that the package links to Motor.encoder / Motor.velocity are declared with a signed format.')
